@@ -90,6 +90,15 @@ def enc_items(enc):
         base = remlen["off"]
         for it in body:
             it["off"] = Lin(it["off"].c - base.c, it["off"].syms)
+    elif not ri and len(allitems) > 2 and allitems[1]["kind"] == "byte" and isinstance(allitems[1]["v"], tuple) and allitems[1]["v"][0] == "const" \
+            and isinstance(allitems[1]["v"][1], int) and 0 < allitems[1]["v"][1] < 128 \
+            and all(it["kind"] in ("byte", "u16") for it in allitems[2:]):
+        # a remaining length written as a constant: right when what follows has a fixed size (a packet identifier) and the constant is it
+        hdr, body = allitems[:1], allitems[2:]
+        remlen = dict(allitems[1], kind="remlen", v=("constlen", allitems[1]["v"][1], sum(1 if it["kind"] == "byte" else 2 for it in body)))
+        base = remlen["off"].add(1)
+        for it in body:
+            it["off"] = Lin(it["off"].c - base.c, it["off"].syms)
     else:
         hdr, remlen, body = allitems, None, []
     return hdr, remlen, body
